@@ -5,6 +5,7 @@ import (
 	"go/ast"
 	"go/constant"
 	"go/token"
+	"sort"
 	"strings"
 )
 
@@ -174,6 +175,36 @@ func init() {
 		} else {
 			fail("cli: --min-severity default not found")
 		}
+		// the single-analysis tools: which configuration section their include / exclude patterns are read from
+		// (`pyscn analyze` selects the files with [analysis]: app/analyze_usecase.go getFilePatterns, tied in gen_files.go)
+		var srcRows []string
+		for _, tool := range [][2]string{{"check_complexity", "HandleCheckComplexity"}, {"detect_clones", "HandleDetectClones"},
+			{"check_coupling", "HandleCheckCoupling"}, {"check_cohesion", "HandleCheckCohesion"}, {"find_dead_code", "HandleFindDeadCode"}} {
+			fd := findFunc(m, "handlers.go", "HandlerSet", tool[1])
+			if fd == nil {
+				fail("mcp: %s not found", tool[1])
+				continue
+			}
+			seen := map[string]bool{}
+			var srcs []string
+			ast.Inspect(fd, func(nd ast.Node) bool {
+				se, ok := nd.(*ast.SelectorExpr)
+				if !ok {
+					return true
+				}
+				n := selName(se)
+				if strings.HasPrefix(n, "cfg.") && (strings.HasSuffix(n, ".IncludePatterns") || strings.HasSuffix(n, ".ExcludePatterns")) && !seen[n] {
+					seen[n] = true
+					srcs = append(srcs, n)
+				}
+				return true
+			})
+			sort.Strings(srcs)
+			srcRows = append(srcRows, fmt.Sprintf("(%q%%string, %s)", tool[0], coqStringList(srcs)))
+			recordDigest(m, "handlers.go", "HandlerSet", tool[1])
+		}
+		fmt.Fprintf(&b, "\n(* mcp/handlers.go: the configuration fields each single-analysis tool reads its include / exclude patterns from *)\n")
+		fmt.Fprintf(&b, "Definition mcp_tool_pattern_sources : list (string * list string) :=\n  [%s].\n", strings.Join(srcRows, ";\n   "))
 		writeGen("McpConst.v", b.String())
 		recordDigest(m, "handlers.go", "HandlerSet", "HandleAnalyzeCode")
 		recordDigest(c, "analyze.go", "AnalyzeCommand", "createUseCaseConfig")
